@@ -8,7 +8,7 @@ import (
 )
 
 func getFullPath(filename string, appendExt bool) (string, error) {
-	return resolvePath(filename, appendExt, usesTemplates)
+	return resolvePath(filename, appendExt, usesTemplates.Load())
 }
 
 // templatePath resolves a template name relative to the template directory,
